@@ -138,6 +138,22 @@ def Deliverable (T : List Session) (env : Sealed) : Prop :=
   (AdvKnows env.k.secret ∧ ∀ σ, env.payload.sig = some σ → SigKnown lt T σ)
 end
 
+/-- A process run with freshness made explicit: the `i`-th handshake that honest code starts
+draws the `i`-th scalar of the system randomness (`genEphKeys` reads `crypto/rand` in every
+call), so the session index IS the identity of its ephemeral scalar. A spec gives, per session
+in start order, the owner and the ephemeral it is handed. -/
+def mkRunFrom : Nat → List (Nat × Point) → List Session
+  | _, [] => []
+  | i, (o, r) :: rest => ⟨o, i, r⟩ :: mkRunFrom (i + 1) rest
+
+def mkRun (specs : List (Nat × Point)) : List Session := mkRunFrom 0 specs
+
+/-- what a recorder of the cleartext first messages can check (and the stream does): no honest
+endpoint ever shows the same ephemeral public key in two sessions -/
+def EphDistinct (T : List Session) : Prop := (T.map (·.eph)).Nodup
+
+instance (T : List Session) : Decidable (EphDistinct T) := by unfold EphDistinct; infer_instance
+
 /-- `transport.upgrade`'s identity checks, in order: dialed id, self-reported id, self -/
 inductive UpVerdict | ok | dialedMismatch | nodeInfoMismatch | self
   deriving DecidableEq, Repr
